@@ -29,13 +29,13 @@ ASSUMPTIONS = [
     "(see C18) are not generated: no documentation defines them.",
 ]
 
-NAMES = ["add_reactions", "readd", "readd", "detached_bounds", "remove_reactions", "add_metabolites", "remove_metabolites", "add_boundary", "rxn_add_mets", "bounds", "bounds_seq",
+NAMES = ["add_reactions", "readd", "readd", "detached_bounds", "detached_arith", "remove_reactions", "add_metabolites", "remove_metabolites", "add_boundary", "rxn_add_mets", "bounds", "bounds_seq",
          "rule", "gene_state", "knock_out_model_genes", "remove_genes", "rename_genes", "rename_rxn", "rename_met", "objective",
          "direction", "imul", "iadd", "copy", "solver", "optimize", "add_cons", "add_var", "remove_cons", "repair", "add_group",
          "remove_group", "group_members", "from_string", "inplace_meta", "tolerance", "merge"]
 STRUCTURAL = {"add_reactions", "readd", "remove_reactions", "add_metabolites", "remove_metabolites", "add_boundary", "rxn_add_mets",
               "imul", "iadd", "rename_rxn", "rename_met", "remove_genes", "rename_genes", "from_string", "merge"}
-PASSIVE = {"optimize", "repair", "copy", "solver", "add_cons", "add_var", "remove_cons"}
+PASSIVE = {"optimize", "repair", "copy", "solver", "add_cons", "add_var", "remove_cons", "detached_arith"}
 # solver-side or analysis calls whose success depends on the solver (infeasible models, MILP on glpk_exact): either
 # outcome is fine for C02, the content comparison still runs
 OUTCOME_FREE = {"optimize", "add_var", "add_cons", "remove_cons", "solver"}
